@@ -7,7 +7,7 @@ LEVEL = "exploration"
 TAG_KEYS = True   # violation keys get the configuration feature tag appended (engine.feature_tag)
 RULE = ("Hypothesis draws (configuration, content, N) weighted to the risk axes: QP 0-8 with noise/extreme content, sizes not multiple of 8 / of the SB, "
         "64x64, many tiles on small pictures, superres denominators 9-16, film grain 50, two-pass, screen content, 10-bit, intra period 0, hierarchical 5, "
-        "RC modes; thorough adds 720p/1080p/4096x2160 short clips. Each case is a full init..EOS..teardown run of the clang ASan+UBSan build. Oracle: no ASan "
+        "RC modes, live-paced submission (next picture only when the encoder is idle) with VBR/CVBR and look-ahead; thorough adds 720p/1080p/4096x2160 short clips. Each case is a full init..EOS..teardown run of the clang ASan+UBSan build. Oracle: no ASan "
         "report, no UBSan report of the enabled classes, no signal, no error packet / EB_ErrorMax, every API call returns EB_ErrorNone/EmptyQueue, no deadlock "
         "signature (no API progress and <2% CPU for 20 s) and no livelock (no progress for the case's idle limit). non-trivial = case lies on >=1 risk axis and "
         "produced >=1 packet; distinct = (config, content, N) hash.")
@@ -44,6 +44,21 @@ def strategy(tier):
             c["hierarchical_levels"] = 5
         elif axis == 4:
             c["source_width"], c["source_height"] = 64, 64
+        pat = None
+        if axis == 5 and not thorough or (thorough and axis in (5, 6)):
+            # live source: the application submits the next picture only once the encoder has gone quiet, so look-ahead windows are never full when rate control runs
+            c["rate_control_mode"] = draw(st.sampled_from([1, 1, 2]))
+            c["target_bit_rate"] = draw(st.sampled_from([100000, 300000, 2000000]))
+            c["intra_period_length"] = draw(st.sampled_from([3, 7, 15, -1]))
+            c["look_ahead_distance"] = draw(st.sampled_from([0, 5, 12, 16, 33]))
+            c["hierarchical_levels"] = draw(st.sampled_from([2, 3, 4]))
+            for k in ("enable_overlays", "superres_mode", "film_grain_denoise_strength", "enable_adaptive_quantization"):
+                c.pop(k, None)
+            c["source_width"], c["source_height"] = draw(st.sampled_from([(64, 64), (128, 96), (96, 72)]))
+            c["enc_mode"] = 8
+            n = draw(st.integers(18, 44))
+            tp = 0
+            pat = [draw(st.sampled_from(["prI", "prI", "SSpr"]))]
         if big:
             w, h = draw(st.sampled_from([(1280, 720), (1920, 1080), (4096, 2160), (1918, 1078), (4096, 64), (64, 2160)]))
             c["source_width"], c["source_height"] = w, h
@@ -52,7 +67,10 @@ def strategy(tier):
             tp = 0
         kinds = (2, 6, 2, 6, 0, 1, 3, 4, 5, 7)
         cnt = draw(gens.content(kinds=kinds))
-        return gens.case_from(c, n, tp, cnt)
+        case = gens.case_from(c, n, tp, cnt)
+        if pat:
+            case["pat"] = pat
+        return case
     return s()
 
 
@@ -87,6 +105,8 @@ def risk_axes(case):
         ax.append("rc")
     if c["enc_mode"] <= 5:
         ax.append("slowpreset")
+    if case.get("pat"):
+        ax.append("live_paced")
     return ax
 
 
